@@ -3973,6 +3973,10 @@ class ProfilingDataset(Dataset):
             yield x
 
     def __getitem__(self, item):
+        if not isinstance(item, (str, numbers.Integral)):
+            # A slice etc. fetches no example now. The examples of the
+            # resulting dataset are fetched (and counted) through self.
+            return super().__getitem__(item)
         start = self.timestamp()
         # Avoid context manager: https://stackoverflow.com/a/26156031/5766934
         self.hit_count[0] += 1
